@@ -26,10 +26,10 @@ def _later_clock() -> float:
 _zc_dns.current_time_millis = _later_clock
 
 T1 = '_http._tcp.local.'
-T2 = '_ipp._tcp.local.'
+T2 = '_Ipp._tcp.local.'            # (browsed as spelled: a type with a capital letter)
 IA = 'Alpha._http._tcp.local.'
-IB = 'beta._http._tcp.local.'
-IC = 'Gamma Straße._ipp._tcp.local.'       # (lower() keeps the sharp s, casefold() would not)
+IB = '\u00c9lodie beta._http._tcp.local.'       # (an upper-case letter outside ASCII: str.lower() folds it, ASCII folding does not)
+IC = 'Gamma Straße._Ipp._tcp.local.'       # (lower() keeps the sharp s, casefold() would not)
 H1 = 'h1.local.'
 H2 = 'H2-Straße.local.'
 HW = 'www.local.'
@@ -43,7 +43,7 @@ def capttl(x: Any) -> int:
 #                         alternative spellings of the rdata target)
 VOCAB: Dict[int, tuple] = {
     1: (T1, wire.T_PTR, 1, IA, [T1], [IA, 'ALPHA._http._tcp.local.', 'alpha._HTTP._tcp.local.']),
-    2: (T1, wire.T_PTR, 1, IB, [T1], [IB, 'Beta._http._tcp.local.']),
+    2: (T1, wire.T_PTR, 1, IB, [T1], [IB, '\u00c9lodie BETA._http._tcp.local.']),
     3: (T2, wire.T_PTR, 1, IC, [T2], [IC]),
     4: (IA, wire.T_SRV, 1, (0, 0, 80, H1), [IA, 'alpha._http._tcp.local.'], [H1, 'H1.local.']),
     5: (IA, wire.T_SRV, 1, (0, 0, 81, H2), [IA, 'ALPHA._HTTP._TCP.LOCAL.'], [H2, 'h2-straße.local.']),
@@ -60,6 +60,7 @@ VOCAB: Dict[int, tuple] = {
     16: (IC, wire.T_SRV, 1, (0, 0, 631, H2), [IC], [H2]),
     17: (HW, wire.T_CNAME, 1, H1, [HW, 'WWW.local.'], [H1, 'H1.local.']),   # decoded into the pointer class, but not a PTR
     18: (IA, wire.T_NSEC, 1, (IA, [28]), [IA], None),       # what the library announces for a service of its own without IPv6 address
+    19: (H2, wire.T_A, 1, b'\x0a\x00\x00\x04', [H2, 'h2-straße.local.'], None),       # a sibling of 12 (rrset of a name with a sharp s)
 }
 # the service the host registers itself in scenarios with a `reg` step: its records are identities 1, 4, 7, 9 and 18
 OWN = {'type': T1, 'name': IA, 'port': 80, 'txt': b'\x03x=1', 'host': H1, 'addr': b'\x0a\x00\x00\x01', 'host_ttl': 120, 'other_ttl': 4500}
@@ -80,6 +81,7 @@ def swap(s: str) -> str:
 
 
 NAME_ID = {low(n): i + 1 for i, n in enumerate(NAMES)}
+NAME_ID_U = {n.lower(): i + 1 for i, n in enumerate(NAMES)}
 RR_ID: Dict[tuple, int] = {}
 for _i, _v in VOCAB.items():
     RR_ID.setdefault((low(_v[0]), _v[1], _v[2]), len(RR_ID) + 1)
@@ -317,7 +319,8 @@ class Recorder:
             r = cache.async_get_unique(p)
             if r is not None:
                 uniq.append(triple(r))
-        names = sorted(NAME_ID.get(low(n), 0) for n in cache.names())
+        # (the cache's own keys are folded with str.lower(), which also folds letters outside ASCII)
+        names = sorted(NAME_ID.get(low(n), 0) or NAME_ID_U.get(n, 0) for n in cache.names())
         paths = {'name': sorted(by_name), 'details': sorted(details), 'one': one, 'server': sorted(server),
                  'rec': self.view(), 'uniq': sorted(uniq), 'names': names, 'spell': spell_mismatch}
         return paths
@@ -663,7 +666,7 @@ def gen_scenario(rng: random.Random, sid: str, n_dgrams: int, with_dups: bool = 
         if rng.random() < 0.12:
             # flush-window probe: a record, then exactly 999 / 1000 / 1001 ms later a sibling of the same
             # (name, type, class) with the cache-flush bit
-            x, y = rng.choice([(4, 5), (5, 4), (7, 8), (9, 10), (10, 9), (1, 2)])
+            x, y = rng.choice([(4, 5), (5, 4), (7, 8), (9, 10), (10, 9), (1, 2), (12, 19), (19, 12)])
             steps.append({'op': 'recv', 'items': [{'id': x, 'ttl': rng.choice([120, 4500]), 'fl': False, 'sp': 0, 'rsp': 0}]})
             t += rng.choice([999, 1000, 1001])
             steps.append({'op': 'at', 't': t})
